@@ -449,6 +449,15 @@ def lib_length(t: 'Term') -> Optional[Rat]:
             st_, sp_, num = arg('start', 0), arg('stop', 1), arg('num', 2)
             if isinstance(st_, Num) and st_.length is None and isinstance(sp_, Num) and sp_.length is None:
                 return num.r if isinstance(num, Num) else C(50)
+        elif h.startswith('lib:numpy.random.'):
+            size = arg('size', 2)
+            if isinstance(size, Tup) and len(size.items) == 1 and isinstance(size.items[0], Num):
+                return size.items[0].r
+            if isinstance(size, Num) and size.length is None:
+                return size.r
+            sc = arg('scale', 1)
+            if size is None and isinstance(sc, Num) and sc.length is not None:
+                return sc.length
         elif h == 'lib:numpy.interp':
             return _len_of(arg('x', 0))
         elif h in ('lib:numpy.zeros', 'lib:numpy.ones', 'lib:numpy.empty'):
